@@ -1,6 +1,7 @@
 package main
 
 import (
+	"go/token"
 	"strings"
 
 	"golang.org/x/tools/go/ssa"
@@ -142,8 +143,8 @@ func sortedBeforeStore(r *R, fnName, field string) {
 	}
 	o.AtI(st)
 	list := unwrapIface(st.Val)
-	sorts := callsIn(fn, "ja4.sortUint16")
-	if !o.Check(len(sorts) == 1, "%s calls sortUint16 %d times: without the sort the fingerprint depends on the order in which the client listed its values", fnName, len(sorts)) {
+	sorts := ascendingSorts(c, fn)
+	if !o.Check(len(sorts) == 1, "%s sorts its list ascending %d times (sortUint16 / sort.Slice with `<` / slices.Sort): without the sort the fingerprint depends on the order in which the client listed its values", fnName, len(sorts)) {
 		return
 	}
 	o.AtI(sorts[0])
@@ -204,7 +205,11 @@ func c02r3(r *R) {
 	}
 	// the comparator
 	su := c.Func("pkg/ja4", "sortUint16")
-	r.need(su != nil, "sortUint16 not found")
+	if su == nil {
+		// the helper was folded into its callers: ascendingSorts validated the comparators in place
+		r.Ob("C02.R3", "comparator:ja4.sortUint16").OK("no sortUint16 helper; the sorts in the unmarshal functions were validated in place")
+		return
+	}
 	o2 := r.Ob("C02.R3", "comparator:"+funcName(su)).At(su.Pos())
 	ss := callsIn(su, "sort.Slice", "sort.SliceStable")
 	var gen []ssa.Instruction
@@ -268,18 +273,20 @@ func c02r4(r *R) {
 				}
 			})
 			if o4.Check(iff != nil, "no test for %s in unmarshalExtensions: it would be hashed into JA4_c", t) {
-				o4.Check(hasGuard(c.guardStrs(iff.Block()), "-p2"), "the %s exclusion is not on the !keepOriginalOrder path", t)
-				p := c.escapeFromBlock(ue, iff.Block().Succs[0], func(i ssa.Instruction) bool { return false }, func(i ssa.Instruction) bool {
-					// reaching the append in the same iteration: stop at loop header
-					return i == eaps[0]
-				})
-				// the true edge must jump to the loop header (continue): the append can be reached only via another iteration, i.e. through the range-index phi block
-				direct := c.escapeFromBlock(ue, iff.Block().Succs[0], func(i ssa.Instruction) bool {
-					_, isPhi := i.(*ssa.Phi)
-					return isPhi && i.Block().Comment == "rangeindex.loop"
-				}, func(i ssa.Instruction) bool { return i == eaps[0] })
-				_ = p
-				o4.Check(direct == nil, "a %s extension is still appended to the hashed list: %v", t, direct)
+				// however the tests are nested (`if !keep { if sni {continue} }`, a type switch with `if !keep {continue}`
+				// in the case body, …): on no path reaching the append in this iteration is the extension of this
+				// type while keepOriginalOrder is false
+				isT := "+assert[*tls." + t + "](" + extI + ")#1"
+				alts := c.pathAlts(eaps[0].Block())
+				o4.Check(len(alts) > 0, "the append is unreachable")
+				for _, alt := range alts {
+					excluded := hasGuard(alt, "-"+isT[1:]) || hasGuard(alt, "+p2")
+					if !excluded && !hasGuard(alt, isT) {
+						// the alternative does not say which type the extension has: it must at least not be the !keep path
+						excluded = false
+					}
+					o4.Check(excluded, "a %s extension can reach the hashed list while keepOriginalOrder is false (path conditions %v)", t, alt)
+				}
 			}
 		}
 		// appended id = first two bytes of this extension's serialisation
@@ -313,20 +320,38 @@ func checkCounter(r *R, o *Ob, fn *ssa.Function, field string, guards []string) 
 			continue
 		}
 		incs := 0
-		for _, e := range phi.Edges {
-			if b, ok := e.(*ssa.BinOp); ok {
+		// the counter's values: through the loop-header phi and any phi that merges `continue` paths with the increment
+		seenPhi := map[*ssa.Phi]bool{}
+		var walk func(e ssa.Value)
+		walk = func(e ssa.Value) {
+			switch x := e.(type) {
+			case *ssa.Phi:
+				if seenPhi[x] {
+					return
+				}
+				seenPhi[x] = true
+				for _, ed := range x.Edges {
+					walk(ed)
+				}
+			case *ssa.BinOp:
 				incs++
-				k, isC := constInt(b.Y)
-				o.Check(b.X == ssa.Value(phi) && isC && k == 1, "counter update is %s", c.Expr(b))
-				bad := onlyGuards(c, b.Block(), guards...)
+				k, isC := constInt(x.Y)
+				base, isPhi := x.X.(*ssa.Phi)
+				o.Check(isPhi && seenPhi[base] && isC && k == 1 && x.Op == token.ADD, "counter update is %s", c.Expr(x))
+				bad := onlyGuards(c, x.Block(), guards...)
 				o.Check(bad == "", "%s counts an element only under %s", field, bad)
 				for _, g := range guards {
-					o.Check(hasGuard(c.guardStrs(b.Block()), g), "%s counts elements without the condition %s", field, g)
+					o.Check(hasGuard(c.guardStrs(x.Block()), g), "%s counts elements without the condition %s", field, g)
 				}
-			} else if k, isC := constInt(e); isC {
-				o.Check(k == 0, "counter starts at %d", k)
+			default:
+				if k, isC := constInt(e); isC {
+					o.Check(k == 0, "counter starts at %d", k)
+				} else {
+					o.Fail("counter takes the value %s", c.Expr(e))
+				}
 			}
 		}
+		walk(phi)
 		o.Check(incs == 1, "%s counter has %d increment sites", field, incs)
 	}
 	o.Check(n == 1, "%s stored %d times", field, n)
@@ -353,7 +378,9 @@ func c02r5(r *R) {
 			a, b, cc := c.Expr(els[0]), c.Expr(els[1]), c.Expr(els[2])
 			o.Check(strings.HasPrefix(a, `fmt.Sprintf("%s%s%s%s%s%s", `), "part a is %s", a)
 			o.Check(b == "ja4.truncatedSha256((ja4.cipherSuites).String(p0.CipherSuites))", "part b is %s, want the truncated hash of the cipher list", b)
-			o.Check(cc == `phi(ja4.truncatedSha256((ja4.extensions).String(p0.Extensions))|ja4.truncatedSha256(fmt.Sprintf("%s_%s", &varargs[:])))`, "part c is %s", cc)
+			// the hash of one of two strings: hashing in both branches or once after choosing the string is the same
+			o.Check(cc == `phi(ja4.truncatedSha256((ja4.extensions).String(p0.Extensions))|ja4.truncatedSha256(fmt.Sprintf("%s_%s", &varargs[:])))` ||
+				cc == `ja4.truncatedSha256(phi((ja4.extensions).String(p0.Extensions)|fmt.Sprintf("%s_%s", &varargs[:])))`, "part c is %s", cc)
 		}
 	})
 	// part a operands in order
@@ -603,18 +630,19 @@ func c02r7(r *R) {
 		if a.Kind != "write" {
 			continue
 		}
-		n++
 		st := a.Instr.(*ssa.Store)
-		gs := c.guardStrs(st.Block())
-		v := c.Expr(st.Val)
 		o.AtI(st)
-		if hasGuard(gs, "+assert[*tls.SNIExtension]("+extI+")#1") {
-			o.Check(v == "100", "with an SNI extension the flag is %s, want 'd'", v)
-		} else {
-			o.Check(v == "105" && hasGuard(gs, "-("+rngIdx+" < builtin.len(p1.Extensions))"), "without an SNI extension the flag is %s under %v, want 'i' after all extensions were examined", v, gs)
+		for _, vc := range c.valueCases(st.Val, st.Block()) {
+			n++
+			gs, v := vc.Guards, vc.E
+			if hasGuard(gs, "+assert[*tls.SNIExtension]("+extI+")#1") {
+				o.Check(v == "100", "with an SNI extension the flag is %s, want 'd'", v)
+			} else {
+				o.Check(v == "105" && hasGuard(gs, "-("+rngIdx+" < builtin.len(p1.Extensions))"), "without an SNI extension the flag is %s under %v, want 'i' after all extensions were examined", v, gs)
+			}
 		}
 	}
-	o.Check(n == 2, "SNI flag stored at %d sites, want 2", n)
+	o.Check(n == 2, "SNI flag has %d cases, want 2", n)
 	al := ja4m(r, "unmarshalFirstALPN")
 	o2 := r.Ob("C02.R7", "alpn:"+funcName(al)).At(al.Pos())
 	first := "assert[*tls.ALPNExtension](" + extI + ")#0.AlpnProtocols[0]"
@@ -623,19 +651,36 @@ func c02r7(r *R) {
 		if a.Kind != "write" {
 			continue
 		}
-		n++
 		st := a.Instr.(*ssa.Store)
-		gs := c.guardStrs(st.Block())
-		v := c.Expr(st.Val)
 		o2.AtI(st)
-		if v == `"00"` {
-			o2.Check(hasGuardContaining(gs, "+", `("" == phi(""|`+first), "\"00\" is stored under %v, want `no ALPN value`", gs)
-		} else {
-			o2.Check(strings.Contains(v, "#0.AlpnProtocols[0]") && strings.Contains(v, `"99"`), "FirstALPN is %s", v)
-			o2.Check(strings.Contains(v, "[0]") && strings.Contains(v, ") - 1)]"), "FirstALPN does not combine the first and the last character of the first protocol: %s", v)
+		// "00" when there is no ALPN value, otherwise the shortened first protocol (one store per case, or one store of the chosen value)
+		saw00, sawVal := false, false
+		for _, vc := range c.valueCases(st.Val, st.Block()) {
+			gs, v := vc.Guards, vc.E
+			if v == `"00"` {
+				saw00 = true
+				o2.Check(hasGuardContaining(gs, "+", `("" == phi(""|`+first), "\"00\" is stored under %v, want `no ALPN value`", gs)
+			} else if v == `"99"` {
+				sawVal = true
+			} else if v == `""` && hasGuardContaining(c.guardStrs(st.Block()), "+", `("" != phi(""|`+first) {
+				// the initial empty value cannot reach a store that is guarded by `alpn != ""`
+			} else {
+				sawVal = true
+				o2.Check(strings.Contains(v, "#0.AlpnProtocols[0]"), "FirstALPN is %s", v)
+			}
+		}
+		if saw00 {
+			n++
+		}
+		if sawVal {
+			n++
+		}
+		whole := c.Expr(st.Val)
+		if sawVal {
+			o2.Check(strings.Contains(whole, `"99"`) && strings.Contains(whole, "[0]") && strings.Contains(whole, ") - 1)]"), "FirstALPN does not combine the first and the last character of the first protocol (or lacks the non-ASCII fallback): %s", whole)
 		}
 	}
-	o2.Check(n == 2, "FirstALPN stored at %d sites, want 2", n)
+	o2.Check(n == 2, "FirstALPN has %d of the two cases (\"00\" / shortened protocol)", n)
 	// the protocol examined is AlpnProtocols[0] under len > 0
 	ok := false
 	eachInstr(al, func(i ssa.Instruction) {
@@ -661,4 +706,39 @@ func c02r7(r *R) {
 		}
 	})
 	o2.Check(conds["len>2"] && conds["nonascii"], "ALPN shortening / non-ASCII rules missing: %v", conds)
+}
+
+// ascendingSorts: calls in fn that sort a []uint16 ascending: the package's sortUint16 helper (validated by the
+// comparator obligation), sort.Slice/SliceStable with a `s[i] < s[j]` comparator over the same slice, slices.Sort.
+func ascendingSorts(c *Ctx, fn *ssa.Function) []ssa.Instruction {
+	var out []ssa.Instruction
+	eachInstr(fn, func(i ssa.Instruction) {
+		cc := callOf(i)
+		if cc == nil {
+			return
+		}
+		switch n := calleeName(cc); {
+		case n == "ja4.sortUint16":
+			out = append(out, i)
+		case n == "slices.Sort" || n == "slices.SortStable" || strings.HasPrefix(n, "slices.Sort[") || strings.HasPrefix(n, "slices.SortStable["):
+			out = append(out, i)
+		case n == "sort.Slice" || n == "sort.SliceStable":
+			cl := closureTarget(cc.Args[1])
+			if cl == nil {
+				return
+			}
+			sl := c.Expr(cc.Args[0])
+			ok := false
+			eachInstr(cl, func(j ssa.Instruction) {
+				if ret, isR := j.(*ssa.Return); isR {
+					e := c.Expr(ret.Results[0])
+					ok = e == "(outer("+sl+")[p0] < outer("+sl+")[p1])"
+				}
+			})
+			if ok {
+				out = append(out, i)
+			}
+		}
+	})
+	return out
 }
